@@ -120,7 +120,9 @@ def node(depth, mode, max_depth=4, allow_pbar=False, allow_cast=True, extra=None
         text_node(mode), text_node(mode),
         st.builds(lambda t, ch, al, to: dict({"k": "rule", "title": t, "characters": ch, "align": al}, **({"title_opts": to} if to else {})), st.one_of(st.just(""), text_content(True), title_content()), st.sampled_from(["─", "-", "=-", GC.WIDE[0], "━"]), st.sampled_from(["left", "center", "right"]),
                   title_opts() if mode == "any" else st.none()),
-        st.builds(lambda size, b, e, w: {"k": "bar", "size": size, "begin": min(b, e), "end": max(b, e), "width": w}, st.integers(1, 100), st.integers(0, 100), st.integers(0, 100), st.one_of(st.none(), st.integers(1, 60)) if mode == "any" else st.none()),
+        st.builds(lambda size, b, e, w: {"k": "bar", "size": size, "begin": min(b, e), "end": max(b, e), "width": w}, st.integers(1, 100), st.one_of(st.integers(0, 100), st.floats(0, 100, allow_nan=False)), st.one_of(st.integers(0, 100), st.floats(0, 100, allow_nan=False)), st.one_of(st.none(), st.integers(1, 60)) if mode == "any" else st.none()),
+        # a bar whose two ends fall close together (inside one terminal cell at most widths)
+        st.builds(lambda b, d: {"k": "bar", "size": 100, "begin": b, "end": min(100.0, b + d), "width": None}, st.floats(0, 99.5, allow_nan=False), st.floats(0, 0.5, allow_nan=False)),
     )
     if extra is not None:
         leaf = st.one_of(leaf, extra)
